@@ -20,6 +20,7 @@ HARNESSES = {
     "H4": {"pkg": ".", "run": "^TestVerifH4$", "streams": ["h4"], "toolchain": "go1.26.0", "timeout": (300, 1200)},
     "H5": {"pkg": ".", "run": "^TestVerifH5$", "streams": ["h5"], "toolchain": "go1.26.0", "timeout": (400, 1800)},
     "H6": {"pkg": ".", "run": "^TestVerifH6$", "streams": ["h6"], "toolchain": "go1.26.0", "timeout": (400, 2400)},
+    "H11": {"pkg": ".", "run": "^TestVerifH11$", "streams": ["h11"], "toolchain": "go1.26.0", "timeout": (300, 600), "flags": ["-race"]},
     "H1": {"pkg": "./internal/proto/", "run": "^TestVerifH1$", "streams": ["h1"], "toolchain": None,
            "timeout": (600, 2400)},
 }
@@ -142,8 +143,8 @@ PROPS.update({
 
 PROPS["C18"] = {
     "modules": ["TurnModel.Props.C18"], "gen": True,
-    "harnesses": ["H9", "H4"], "view": ["slowcb", "trace"], "outs": None,
-    "alarms": ["liveness-lost", "allocation-left", "txn-completion-race", "harness-died"],
+    "harnesses": ["H9", "H4", "H11"], "view": ["slowcb", "trace"], "outs": None,
+    "alarms": ["liveness-lost", "allocation-left", "txn-completion-race", "harness-died", "data-race", "concurrent-writers-mixed", "h11-setup"],
     "rule": "regenerated obligations: xlate re-emits the lock skeleton of every function/closure touching a sync mutex (63 units, 26 lock ids), the call/guard "
             "skeleton of the request handlers and the AddPermission ordering facts from /repo's working tree on every run; the kernel re-checks balanced/guarded "
             "by decide; the translator also derives, over the static call graph, which mutexes each function may take (callee summaries) and the kernel re-checks that the resulting lock-order graph (mutex held -> mutex taken, over every path, through calls) is acyclic (lock_order_acyclic). Failing-input search / supporting run: H9 makes each lifecycle callback slow (1 s / 4 s virtual) and tears the allocation down during it by "
@@ -203,8 +204,8 @@ PROPS["C12"] = {
 
 PROPS["C13"] = {
     "modules": ["TurnModel.Props.C13", "TurnModel.Props.C13Nums", "TurnModel.Props.C13Locks"], "gen": True,
-    "harnesses": ["H5"], "view": ["cwrite", "cin", "cread", "cadv", "cclose", "cnet"], "outs": None,
-    "alarms": ["inbound-blocks", "h5-setup", "harness-died", "read-deadline-not-sticky"],
+    "harnesses": ["H5", "H11"], "view": ["cwrite", "cin", "cread", "cadv", "cclose", "cnet"], "outs": None,
+    "alarms": ["inbound-blocks", "h5-setup", "harness-died", "read-deadline-not-sticky", "data-race", "concurrent-writers-mixed", "h11-setup"],
     "rule": "H5 drives the real turn.Client + UDPConn (Allocate, WriteTo, ReadFrom, SetReadDeadline, Close, HandleInbound, the 30 s bindings timer) against a scripted TURN server on an "
             "in-memory socket under virtual time: every write gets a reaction script for CreatePermission and ChannelBind drawn from {ok, 400, 403, 438, 438x2, 438x3, silence, 438+403, 508}; "
             "inbound Data indications, ChannelData (known/unknown channels, payloads starting with the STUN cookie), requests, undecodable STUN, foreign responses, garbage from the server and "
